@@ -242,7 +242,9 @@ var names = []string{"Foo", "Foo/size=4k", "Foo/size=4k/kind=a-8", "Bar-16", "Ba
 	"/size=4k-8", "/kind=a", "/", "Foo/size=x=1/kind=a=b-4"}
 var cfgKeys = []string{"goos", "pkg", "a", ".file", "note"}
 var cfgVals = []string{"linux", "darwin", "x y", "1", "p/q", "é", "-v", "*", "a:b", "(x)", "AND"}
-var safeRegexps = []string{"^F", "oo$", "4k|1M", "^$", ".", "[a-f]+", "^(linux|darwin)$", "s.c", "B", "^[0-9]+$", "x y", "^ns", "^MB", "ns.op$", "^sec", "^9", "9"}
+var safeRegexps = []string{"^F", "oo$", "4k|1M", "^$", ".", "[a-f]+", "^(linux|darwin)$", "s.c", "B", "^[0-9]+$", "x y", "^ns", "^MB", "ns.op$", "^sec", "^9", "9",
+	// a delimiter inside a class, a group or behind a backslash does not end the expression; an unmatched ']' is an ordinary character
+	"[/]op", "(s/o|B/o)p$", `c\/op`, "x][/]y", "^[^/]*$", "^[[:alpha:]/]+$"}
 
 func keysFor(name string) []string {
 	ks := []string{".name", ".fullname", "/gomaxprocs", "/size", "/kind", "/absent"}
